@@ -352,3 +352,135 @@ def run(fx, rep, tier):
     r5_typability(facts, rep)
     r6_sentence(facts, rep)
     r7_index_options(facts, rep)
+    r9_sources(facts, rep)
+    rep.rule("C16-R8", "a fact can only be found in an index that was built: every kind of session (in memory, fresh directory, "
+                       "re-opened, re-created index) serves a fully built index (shared with C15-R4 and C15-R6)")
+    from . import c15
+    s8 = type(rep)(rep.prop, rep.tier)
+    c15.r6_session(facts, s8, rule="C16-R8")
+    c15.r3_invalidate_before_destroy(facts, s8)
+    c15.r4_trust_conditions(facts, s8)
+    for o in s8.obls:
+        if o["rule"] in ("C16-R8", "C15-R4", "C15-R3"):
+            o["rule"] = "C16-R8"
+            rep.obls.append(o)
+
+
+def r9_sources(facts, rep):
+    rep.rule("C16-R9", "the source of a constant resolves: Db::get_source(id) looks the id up in the id -> index map and returns "
+                       "that element of the source list (effect summary); the map is built when the sources are decoded, one "
+                       "entry (source.id -> its index) per source in list order (summary of the Deserialize impl over two "
+                       "symbolic sources).  A search that presumes an order of the list (the shipped list is not sorted by id) "
+                       "is not recognised and reported")
+    from ..absint import core
+    from ..absint.core import Agg, Const, Ref, TOP, NONE, some, ok, err, UNIT
+    from ..absint.term import EffectDomain, Sym, T
+    from ..absint.stdmodels import Seq
+    gs = facts.fn("db::Db::get_source")
+    if gs is None:
+        rep.ob("C16-R9", "anchor:db::Db::get_source", False, "Db::get_source not found")
+        return
+    sadt = facts.adt("db::Sources")
+    dadt = facts.adt("db::Db")
+    if sadt is None or dadt is None:
+        rep.ob("C16-R9", "anchor:db::Sources", False, "struct Sources / Db not found")
+        return
+    sf = sadt["variants"][0]["fields"]
+    i_vec = [i for i, f in enumerate(sf) if f["ty"].startswith("std::vec::Vec<db::Source")]
+    i_map = [i for i, f in enumerate(sf) if "HashMap<u64" in f["ty"] or "BTreeMap<u64" in f["ty"]]
+    if not rep.ob("C16-R9", "anchor:Sources-fields", len(i_vec) == 1 and len(i_map) == 1,
+                  "Sources holds the list of sources and a map from id to index (%s)" % [f["ty"][:40] for f in sf]):
+        return
+
+    def oracle(dom, it, name, args, vals, store):
+        m = name.rsplit("::", 1)[-1]
+        if ("HashMap" in name or "BTreeMap" in name) and m == "get" and len(vals) == 2:
+            key = it.read_ref(store, vals[1]) if isinstance(vals[1], Ref) else vals[1]
+            st = dom.with_log(store, ("map-get", vals[0], key))
+            return [(some(Sym("index")), st), (NONE, st)]
+        if ("HashMap" in name or "BTreeMap" in name) and m == "insert" and len(vals) == 3:
+            return [(NONE, dom.with_log(store, ("map-insert", it.read_ref(store, vals[1]) if isinstance(vals[1], Ref) else vals[1], vals[2])))]
+        if ("HashMap" in name or "BTreeMap" in name) and m in ("new", "default", "with_capacity"):
+            return [(Sym("newmap"), store)]
+        if (name.startswith("core::slice::<impl [T]>::get") or name.startswith("std::vec::Vec::<T, A>::get") or m == "get") and len(vals) == 2 and vals[0] == Sym("srcvec"):
+            return [(some(T("elem", vals[0], vals[1])), store), (NONE, store)]
+        if name.endswith("as std::ops::Deref>::deref") and vals and vals[0] == Sym("srcvec"):
+            return [(vals[0], store)]
+        return None
+
+    dom = EffectDomain({}, oracle=oracle)
+    dom.uninterp = lambda n: facts.fn(n) is None
+    it = core.Interp(facts, dom, budget=20000)
+    svals = [TOP] * len(sf)
+    svals[i_vec[0]] = Sym("srcvec")
+    svals[i_map[0]] = Sym("srcmap")
+    sources = Agg("adt", "db::Sources", 0, "Sources", tuple(svals))
+    dvals = [sources if f["ty"] == "db::Sources" else TOP for f in dadt["variants"][0]["fields"]]
+    st, dref = it.fresh_slot({}, Agg("adt", "db::Db", 0, "Db", tuple(dvals)))
+    try:
+        outs = it.run(gs, [dref, Sym("id")], st)
+    except core.Undecided as e:
+        rep.ob("C16-R9", "get_source", False, "undecided: %s" % e, gs.site())
+        outs = []
+    bad = []
+    n_some = 0
+    for o in outs:
+        if o.kind != "ret":
+            bad.append("get_source can end in %s" % o.kind)
+            continue
+        v = o.value
+        if isinstance(v, Agg) and v.path == "std::option::Option" and v.vi == 1:
+            n_some += 1
+            gets = [e for e in dom.log(o.store) if e[0] == "map-get"]
+            if not (len(gets) == 1 and gets[0][1] == Sym("srcmap") and gets[0][2] == Sym("id")):
+                bad.append("a source is returned without the id having been looked up in the id map (%r)" % (gets,))
+            elif v.field(0) != T("elem", Sym("srcvec"), Sym("index")):
+                bad.append("the source returned is %r, not the element at the index the map gave" % (v.field(0),))
+    if outs:
+        rep.ob("C16-R9", "get_source", not bad and n_some >= 1, "; ".join(bad[:2]) if bad else
+               "get_source(id) = sources[map[id]] on %d path(s)" % n_some, gs.site())
+    # the map is built from the list
+    de = [b for b in facts.all if b.promoted < 0 and b.path.startswith("<db::Sources as ") and b.path.endswith("Deserialize<'de>>::deserialize")]
+    if not rep.ob("C16-R9", "anchor:Sources-deserialize", len(de) == 1, "the Deserialize impl of Sources found (%d)" % len(de)):
+        return
+    b = de[0]
+    sadt2 = facts.adt("db::Source")
+    sidx = [i for i, f in enumerate(sadt2["variants"][0]["fields"]) if f["name"] == "id" or f["ty"] == "u64"][0]
+
+    def src(k):
+        fs = [TOP] * len(sadt2["variants"][0]["fields"])
+        fs[sidx] = Sym("s%d.id" % k)
+        return Agg("adt", "db::Source", 0, "Source", tuple(fs))
+    two = Seq((src(0), src(1)))
+
+    def oracle2(dom_, it_, name, args, vals, store):
+        if "deserialize" in name and vals and vals[0] == Sym("deserializer") and name != b.path:
+            # the derived decoder of the raw list: a struct of the crate whose only field is the Vec<Source>
+            raws = [a for (c_, p_), a in facts.adts.items() if not a["is_enum"] and len(a["variants"][0]["fields"]) == 1
+                    and a["variants"][0]["fields"][0]["ty"].startswith("std::vec::Vec<db::Source") and p_ in name]
+            if len(raws) == 1:
+                return [(ok(Agg("adt", raws[0]["path"], 0, raws[0]["variants"][0]["name"], (two,))), store), (err(Sym("decode_error")), store)]
+        return oracle(dom_, it_, name, args, vals, store)
+    dom2 = EffectDomain({}, oracle=oracle2)
+    dom2.uninterp = lambda n: facts.fn(n) is None
+    it2 = core.Interp(facts, dom2, budget=40000)
+    try:
+        outs2 = it2.run(b, [Sym("deserializer")], {})
+    except core.Undecided as e:
+        rep.ob("C16-R9", "map-built-from-list", False, "undecided: %s" % e, b.site())
+        return
+    good = 0
+    bad2 = []
+    for o in outs2:
+        if o.kind != "ret" or not (isinstance(o.value, Agg) and o.value.vi == 0 and o.value.path == "std::result::Result"):
+            continue
+        ins = [(e[1], e[2]) for e in dom2.log(o.store) if e[0] == "map-insert"]
+        want = [(Sym("s0.id"), Const(0)), (Sym("s1.id"), Const(1))]
+        v = o.value.field(0)
+        vec_ok = isinstance(v, Agg) and v.field(i_vec[0]) == two
+        if ins == want and vec_ok:
+            good += 1
+        else:
+            bad2.append("the map receives %r (specified %r); the list kept is %s" % (ins, want, "the decoded one" if vec_ok else "another one"))
+    rep.ob("C16-R9", "map-built-from-list", good >= 1 and not bad2, "; ".join(bad2[:2]) if bad2 else
+           "decoding two sources inserts (s0.id -> 0), (s1.id -> 1) and keeps the list", b.site())
